@@ -111,6 +111,12 @@ D = {
     "C13e": ("Mesh1D.eval_basis cache key without the element number (same slip as seeded/C13b, found independently)", "xi on an interior element boundary asked for two different elements"),
     "C26e": ("rod r_OP adds the offset into the cached centerline (same change as seeded/C11e, found independently)", "non-zero B_r_CP, repeated evaluation at the same (qe, xi)"),
     "C29e": ("export_contr builds the frame file with Path.with_suffix (same slip as seeded/C29d, found independently)", "a name containing a dot"),
+    "C04e": ("RigidBody.r_OP returns q[:3] itself for a zero offset (same idea as seeded/C26c, found independently)", "the caller advances its state array in place; an earlier position, or the memoised one, changes with it"),
+    "C12e": ("Harsch2021: |B_Gamma|, |B_Gamma0| from a cachedmethod keyed on the current strain B_Gamma only", "two consecutive calls with equal B_Gamma and reference strains of different length: potential, B_n, B_n_B_Gamma use the previous reference stretch"),
+    "C17e": ("fsolve scales its residual with options.fixed_point_atol instead of options.newton_atol", "a user who tightens newton_atol only: Rattle / BackwardEuler stop at 1e-6 and report success; constraints hold to the fixed-point tolerance, not the Newton tolerance asked for"),
+    "C18e": ("compute_I_F: running counter for the normal index (same slip as seeded/C18b, found independently)", "Moreau, a closed frictionless contact assembled before frictional ones"),
+    "C25e": ("Revolute.angle / angle_dot become lambdas closing over self instead of bound methods", "a deep-copied system (restart workflow): deepcopy keeps the function object, so the copy's angle reads and updates the ORIGINAL joint's full-turn counter"),
+    "C27e": ("Sphere.prox compares squared lengths with the unclamped radius (r z)^2", "a negative normal force z < 0 with |x| <= r |z|: the point is returned although the ball is degenerate (radius 0)"),
     "C22b": ("fixed_point_iteration calls fun(x) without the defensive copy", "a fixed-point map that updates its argument in place (DualStormerVerlet's own map with accelerated=False does)"),
 }
 rows = []
